@@ -67,11 +67,16 @@ def gen_source(mode, h, w, uid, mask):
     und = {0: np.zeros((h, w), bool), 1: (xx // 3) % 2 == 0, 2: (yy + xx) % 3 == 0, 3: np.ones((h, w), bool)}[mask]
     if mode in ("F32", "F64"):
         a = (uid * 1000.0 + yy * 1.5 + xx / 8.0).astype(DT[mode])
+        if uid % 3 == 0:
+            a[(yy * 5 + xx) % 31 == 0] = np.inf         # saturated samples are defined values
+            a[(yy * 5 + xx) % 31 == 1] = -np.inf
         a[und] = np.nan
     elif mode == "F16x3":
         a = np.empty((h, w, 3), dtype=np.float16)
         for c in range(3):
             a[..., c] = (uid + c + (yy % 7) / 8.0 + (xx % 5)).astype(np.float16)
+        if uid % 3 == 0:
+            a[(yy * 3 + xx) % 29 == 0] = np.inf
         a[und] = np.nan
     elif mode in ("I16", "I32", "U8"):
         hi = {"I16": 30000, "I32": 10 ** 6, "U8": 250}[mode]
